@@ -647,7 +647,7 @@ func runC09(c *ctx) {
 	for cell := 0; cell < 12; cell++ {
 		cases = append(cases, genC09witness(cell))
 	}
-	n := c.n(40, 2000)
+	n := c.n(60, 2000)
 	for i := 0; i < n; i++ {
 		for cell := 0; cell < 12; cell++ {
 			cases = append(cases, genC09(c.rng.U64(), cell, c.thorough()))
